@@ -550,6 +550,16 @@ class Generator:
         rng.shuffle(common)
         keep_l = set(common[: len(common) // 2]) | {n for n in l.m.names() if n not in r.m.names()}
         keep_r = set(common[len(common) // 2 :]) | {n for n in r.m.names() if n not in l.m.names()}
+        # variant: the join columns (shared keys) keep their names on BOTH sides and are the only
+        # clashing names - the documented "only the clashing right columns are renamed" case
+        shared_keys = []
+        if rng.random() < 0.5:
+            def is_key(n):
+                a, b = l.m.tok_of_name(n), r.m.tok_of_name(n)
+                return a is not None and b is not None and T[a].kind == T[b].kind == "int" and T[a].T == T[b].T == 0 and T[a].c == T[b].c and T[a].offs == T[b].offs == (0,) and a not in l.m.opaque and b not in r.m.opaque
+            shared_keys = [n for n in common if is_key(n)][: rng.choice([1, 2, 2])]
+            keep_l |= set(shared_keys)
+            keep_r |= set(shared_keys)
         lt = [t for n, t in l.m.visible if n in keep_l]
         rt = [t for n, t in r.m.visible if n in keep_r]
         if len(lt) < 1 or len(rt) < 1:
@@ -575,6 +585,11 @@ class Generator:
             ri = [t for t in self.addressable(rt_, kinds=("int",), decodable=True, visible_only=True) if len(T[t].offs) == 1 and T[t].T]
             pairs = [(a, b) for a in li for b in ri if T[a].mod == T[b].mod]
             m.note("disjoint_join_scenario")
+            keys = [n for n in shared_keys if lt_.m.tok_of_name(n) is not None and rt_.m.tok_of_name(n) is not None]
+            if keys:
+                m.note("join_only_key_columns_clash")
+                on = [n if rng.random() < 0.5 else {"p": "eq", "a": {"o": n}, "b": {"ro": n}} for n in keys]
+                return {"op": "join", "l": lt_.id, "r": rt_.id, "on": on, "how": rng.choice(["inner", "left", "full"])}
             if not pairs:
                 return {"op": "join", "l": lt_.id, "r": rt_.id, "on": [], "how": "inner", "cross": bool(rng.random() < 0.5)}
             a, b = rng.choice(pairs)
@@ -600,9 +615,24 @@ class Generator:
                 return None
             return {"op": "select", "t": r.id, "cols": rcols}
 
+        def suffix_like_col(i):
+            # the right table already owns a column called like a suffixed key column
+            rt_ = m.tables.get(f"t{i - 1}")
+            if rt_ is None or not shared_keys or rt_.m.name is None or rng.random() < 0.5:
+                return None
+            ints = self.addressable(rt_, kinds=("int",), visible_only=True)
+            name = f"{rng.choice(shared_keys)}_{rt_.m.name}"
+            if not ints or name in rt_.m.names():
+                return None
+            a = self.refarg(rt_, rng.choice(ints))
+            if a is None:
+                return None
+            m.note("right_owns_suffix_like_column")
+            return {"op": "mutate", "t": rt_.id, "cols": [[name, {"e": "tag", "a": a, "k": self.new_k()}]]}
+
         # references to the row-identifying columns are taken first: they stay usable when hidden
         lid_tok = next((t for t in (l.m.rowid or ()) if l.m.name_of_tok(t)), None)
-        self.plan = [sel_left, ref_right, sel_right2, do_join]
+        self.plan = [sel_left, ref_right, sel_right2, suffix_like_col, do_join]
         if lid_tok is None:
             return self.plan.pop(0)(None)
         return {"op": "ref", "t": l.id, "how": "item", "name": l.m.name_of_tok(lid_tok)}
@@ -687,6 +717,67 @@ class Generator:
 
         self.plan = [take_ref, hide, touch]
         return st
+
+    def g_overwrite_chain_scenario(self):
+        """a name is overwritten twice while references to both older versions are held; then a
+        row-level verb after slice_head (on SQL: a sub-query) - three same-named columns, two of
+        them hidden, have to stay apart"""
+        if not self.m.cfg.get("hold_refs", True) or len(self.m.refs) + 2 > self.p.get("max_refs", 24):
+            return None
+        m = self.m
+        T = m.model.toks
+        pt = self.pick_table(lambda p: not p.m.grouping and p.m.rowid and any(T[t].kind == "int" and t not in p.m.opaque for t in p.m.vis_toks()))
+        if pt is None:
+            return None
+        cands = [n for n, t in pt.m.visible if T[t].kind == "int" and t not in pt.m.opaque and T[t].T and t not in (pt.m.rowid or ())]
+        if not cands:
+            return None
+        name = self.rng.choice(cands)
+        st = {"cur": pt.id}
+
+        def ow(i):
+            rid = f"r{i - 1}"
+            if rid not in m.refs or st["cur"] not in m.tables:
+                self.plan.clear()
+                return None
+            st["cur_next"] = f"t{i}"
+            return {"op": "mutate", "t": st["cur"], "cols": [[name, {"e": "tag", "a": {"r": rid}, "k": self.new_k()}]]}
+
+        def ref_again(i):
+            st["cur"] = st["cur_next"]
+            if st["cur"] not in m.tables:
+                self.plan.clear()
+                return None
+            return {"op": "ref", "t": st["cur"], "how": "item", "name": name}
+
+        def order(i):
+            st["cur"] = st["cur_next"]
+            p2 = m.tables.get(st["cur"])
+            by = self.total_order(p2) if p2 is not None else None
+            if not by:
+                self.plan.clear()
+                return None
+            st["cur_next"] = f"t{i}"
+            return {"op": "arrange", "t": p2.id, "by": by}
+
+        def cut(i):
+            if st["cur_next"] not in m.tables:
+                self.plan.clear()
+                return None
+            st["cur"] = st["cur_next"]
+            st["cur_next"] = f"t{i}"
+            return {"op": "slice_head", "t": st["cur"], "n": self.rng.choice([3, 5, 8]), "offset": 0}
+
+        def touch(i):
+            p2 = m.tables.get(st["cur_next"])
+            if p2 is None:
+                return None
+            m.note("overwrite_chain_scenario")
+            preds = [p for p in (self.g_pred(p2),) if p]
+            return {"op": "filter", "t": p2.id, "preds": preds} if preds else None
+
+        self.plan = [ow, ref_again, ow, order, cut, touch]
+        return {"op": "ref", "t": pt.id, "how": "attr", "name": name}
 
     def g_filter_empty(self):
         """always-false filter (empty sides)"""
